@@ -82,7 +82,7 @@ class Lifecycle:
 
 
 def destroy_pals_of(script_lines):
-    pals = {2, 3, 5}
+    pals = {2, 3, 5, 13}
     for l in script_lines:
         t = l.split()
         if t and t[0] == 'reg' and len(t) > 2 and int(t[1]) >= 8 and int(t[2]) & 16:
